@@ -1251,12 +1251,24 @@ class P(Prop):
             bad = True
         return self.fork_call(case) if bad else out
 
+    @staticmethod
+    def in_lib_call(e):
+        """the exception e was raised inside one of the library's write / read calls (they all go through self.lib), as
+        opposed to the harness's own plumbing: building the track / network of the case with the library's constructors,
+        expanding a long case, reading its own scratch files"""
+        tb = e.__traceback__
+        while tb is not None:
+            if tb.tb_frame.f_code is P.lib.__code__:
+                return True
+            tb = tb.tb_next
+        return False
+
     def guarded(self, case):
         try:
             return self.impl_here(case)
         except BaseException as e:
             from engine import err_kind
-            return {"err": err_kind(e), "detail": str(e)[:200]}
+            return {"err": err_kind(e), "detail": str(e)[:200], "in_lib": self.in_lib_call(e)}
 
     def fork_call(self, case):
         import pickle
@@ -1277,7 +1289,7 @@ class P(Prop):
             data = fh.read()
         os.waitpid(pid, 0)
         if not data:
-            return {"err": "err:child", "detail": "the child process running the case died"}
+            return {"err": "err:child", "detail": "the child process running the case died", "in_lib": True}
         return pickle.loads(data)
 
     def runner_call(self, case):
@@ -1341,7 +1353,7 @@ class P(Prop):
             except BaseException as e:
                 if isinstance(e, KeyboardInterrupt):
                     raise
-                o = {"err": self.ekind(e), "detail": str(e)[:200]}
+                o = {"err": self.ekind(e), "detail": str(e)[:200], "in_lib": self.in_lib_call(e)}
             o["leaks"] = self.leaks
             o["fmt_after"] = [T.getReadFormat(), T.getPrintFormat()]
             outs.append(o)
@@ -2007,6 +2019,10 @@ class P(Prop):
         case = self.X(case)
         k = case["kind"]
         if "err" in out:
+            # an exception that did not come out of a write / read call of the library (building the case, the harness's own
+            # file handling) says nothing about the property: the correspondence check reports it, the oracle does not judge it
+            if not out.get("in_lib"):
+                return None
             return "raised %s (%s)" % (out["err"], out.get("detail"))
         if k == "session":
             # every round trip of the session must hold with the formats the session started with, and no library call may
@@ -2016,6 +2032,10 @@ class P(Prop):
             for i, (op, o) in enumerate(zip(case["ops"], out["ops"])):
                 tag = "session %r, operation %d (%s)" % (case["fmt"], i, op["kind"])
                 if "err" in o:
+                    # timeWithZone / writeToKml are in the session for the state they may leave behind: that they raise is not
+                    # a failure of a round trip; nor is an exception raised while the operation's input was being built
+                    if op["kind"] in ("tz", "kml", "setfmt") or not o.get("in_lib"):
+                        continue
                     return "%s raised %s (%s)%s" % (tag, o["err"], o.get("detail"), leak or "")
                 m = self.spec(op, o)
                 if m:
